@@ -6,9 +6,10 @@ import MirGen.Tables
 
   * `CHORD_RE.match(s)` with `^…\Z` (the pattern is anchored at the very end of the string since the
     repair `fix: chord label validation no longer accepts a trailing newline`): the set of accepted strings is
-    the regular language L of the pattern.  The pattern itself is not translated; `recognize` (Grammar.lean)
-    stands for L — that identification is what the exhaustive-to-depth differential of harness/props/c10.py
-    checks against `re`.
+    the regular language L of the pattern.  `recognize` (Grammar.lean) stands for L here; the pattern itself is
+    regenerated from chord.py into `MirGen/ChordRe.lean` and `MirProofs/Props/C10_Regex.lean` proves, for every
+    string, `reMatch s = Rx.accepts Gen.chordReMethod Gen.chordRe s` (`reMatch_eq_regex`), so this definition IS
+    the regenerated regex.
   * `a, b = s.split(sep)` raises ValueError unless there is exactly one separator (`unpack2`).
   * `set(...)` is a duplicate-free list (first occurrences, insertion order); Python's iteration order is
     unspecified, so theorems about consumers of the set are stated for every permutation.
